@@ -48,6 +48,57 @@ def find_enum_switch(facts, body, accessor):
     return best
 
 
+def bind_by_interpretation(facts, db, mname):
+    """{Code name: (discriminant, handler path)}: the dispatcher interpreted once per code named after the mnemonic; the
+    handler is the one local function taking (self, Instruction) that every non-aborting path calls"""
+    from . import absint as A
+    enum = facts.enums.get("iced_x86::Code") or {}
+    variants = enum.get("variants") if isinstance(enum, dict) else None
+    names = []
+    try:
+        i_ = 0
+        while True:
+            ev = facts.enum_variant("iced_x86::Code", i_)
+            if ev is None:
+                break
+            names.append((ev[0], i_, ev[1]))
+            i_ += 1
+            if i_ > 6000:
+                break
+    except Exception:  # noqa
+        pass
+    out = {}
+    for cname, vidx, discr in names:
+        if not (cname == mname or cname.startswith(mname + "_")):
+            continue
+        called = []
+
+        def icpt(I, path, frame, t, name, args, vidx=vidx, called=called):
+            if name == "iced_x86::Instruction::code":
+                return [(("agg", "adt:iced_x86::Code", vidx, ()), path)]
+            cb = facts.bodies.get(name)
+            if cb is not None and cb.get("impl_self") == AXE and cb["argc"] == 2 and cb["locals"][2] == ["adt", "iced_x86::Instruction", []]:
+                path.events.append(("handler_call", name))
+                return [(A.OK(A.UNIT), path)]
+            return None
+        I = A.Interp(facts, intercept=icpt)
+        try:
+            outs = list(I.run(db, [("ref", (("H", "self"), ()), True), ("init", "instr", 0)], A.Path()))
+        except Exception:  # noqa
+            continue
+        hs = set()
+        okp = 0
+        for o in outs:
+            if o.kind != "return":
+                continue
+            okp += 1
+            hc = [e[1] for e in o.path.events if e[0] == "handler_call"]
+            hs.add(tuple(hc))
+        if okp and len(hs) == 1 and len(next(iter(hs))) == 1:
+            out[cname] = (discr, next(iter(hs))[0])
+    return out
+
+
 def switch_arms(facts, body, sw, enum):
     """[(variant name, discr, callee path or None, target bb)] + otherwise"""
     arms = []
@@ -121,7 +172,19 @@ class Dispatch:
             db = facts.bodies[disp]
             sw2 = find_enum_switch(facts, db, "iced_x86::Instruction::code")
             if sw2 is None:
-                self.problems.append("mnemonic %s: dispatcher has no `match i.code()`" % mname)
+                # no switch on the code (e.g. a guard `if i.code() != C { fatal } handler(i)` for a mnemonic with one
+                # encoding): the binding is found by interpreting the dispatcher with i.code() answered by each code of
+                # this mnemonic in turn
+                bound = bind_by_interpretation(facts, db, mname)
+                if not bound:
+                    self.problems.append("mnemonic %s: dispatcher has no `match i.code()`" % mname)
+                    continue
+                for cname, (cdiscr, handler) in sorted(bound.items()):
+                    impl = bool(handler and handler in facts.bodies and self.canret.get(handler, False))
+                    if cname in self.codes:
+                        self.problems.append("Code %s bound twice" % cname)
+                    self.codes[cname] = {"handler": handler, "mnemonic": mname, "dispatcher": disp,
+                                         "implemented": impl, "discr": cdiscr}
                 continue
             for cname, cdiscr, handler, _ in switch_arms(facts, db, sw2[1], "iced_x86::Code"):
                 impl = bool(handler and handler in facts.bodies and self.canret.get(handler, False))
